@@ -31,7 +31,7 @@ Definition c02_fire_state (c : fcfg) (now : Z) (f : full) : full * list out * bo
             else let '(a, fb, ob) := get_ack now fa in (negb (ackt_eqb a AckNone), fb, oa ++ ob) in
         if negb supp && stype_eqb (s_type (f_st fb)) Hard && negb (likely_checked_soon c now fb)
            && negb (parent_recovered_recently fb)
-        then (fb, ob ++ (if negb (sstate_eqb cur (f_sbs fb)) then [ONotify t] else []), true)
+        then (fb, ob ++ (if negb (release_same_state k cur (f_sbs fb)) then [ONotify t] else []), true)
         else (fb, ob, false)
       else (f, [], false).
 
@@ -54,7 +54,7 @@ Lemma c02_fire_state_facts c now f :
   c02_same f fb /\ f_dts fb = f_dts f /\ c02_ack_live now fb = c02_ack_live now f /\
   sub = c02_release_cond c now f /\
   c02_flap_outs ob = [] /\
-  c02_state_outs ob = (if c02_release_cond c now f && negb (sstate_eqb (s_raw (f_st f)) (f_sbs f))
+  c02_state_outs ob = (if c02_release_cond c now f && negb (release_same_state (c_kind (fc_base c)) (s_raw (f_st f)) (f_sbs f))
                        then [ONotify (c02_fire_type c f)] else []).
 Proof.
   intros Hp. unfold c02_pending in Hp. unfold c02_fire_state. rewrite Hp.
@@ -75,10 +75,10 @@ Proof.
                 negb (parent_recovered_recently f)).
       * c02_split; try assumption; try congruence; try reflexivity.
         -- rewrite c02_flap_outs_app, (c02_quiet_flap _ Q1).
-           destruct (negb (sstate_eqb _ _)); [|reflexivity].
+           destruct (negb (release_same_state _ _ _)); [|reflexivity].
            destruct (s_has_cr (f_st f) && _); reflexivity.
         -- rewrite c02_state_outs_app, (c02_quiet_state _ Q1).
-           destruct (negb (sstate_eqb _ _)); [|reflexivity].
+           destruct (negb (release_same_state _ _ _)); [|reflexivity].
            destruct (s_has_cr (f_st f) && _); reflexivity.
       * c02_split; try assumption; try congruence; try reflexivity;
           [apply c02_quiet_flap|apply c02_quiet_state]; assumption.
@@ -117,7 +117,7 @@ Record c02_fire_spec (c : fcfg) (now : Z) (f f' : full) (o : list out) : Prop :=
   fs_idle : f_paused f = true -> o = [] /\ f' = f;
   fs_state :
     let rel := negb (f_paused f) && c02_pending f && c02_release_cond c now f in
-    c02_state_outs o = (if rel && negb (sstate_eqb (s_raw (f_st f)) (f_sbs f)) then [ONotify (c02_fire_type c f)] else [])
+    c02_state_outs o = (if rel && negb (release_same_state (c_kind (fc_base c)) (s_raw (f_st f)) (f_sbs f)) then [ONotify (c02_fire_type c f)] else [])
     /\ f_sp_problem f' = (if rel then false else f_sp_problem f)
     /\ f_sp_recovery f' = (if rel then false else f_sp_recovery f);
   fs_flap :
@@ -144,7 +144,7 @@ Proof.
   assert (exists fb ob sub, c02_fire_state c now f = (fb, ob, sub) /\
             c02_same f fb /\ f_dts fb = f_dts f /\ c02_ack_live now fb = c02_ack_live now f /\
             sub = (c02_pending f && c02_release_cond c now f) /\ c02_flap_outs ob = [] /\
-            c02_state_outs ob = (if c02_pending f && c02_release_cond c now f && negb (sstate_eqb (s_raw (f_st f)) (f_sbs f))
+            c02_state_outs ob = (if c02_pending f && c02_release_cond c now f && negb (release_same_state (c_kind (fc_base c)) (s_raw (f_st f)) (f_sbs f))
                                  then [ONotify (c02_fire_type c f)] else [])) as (fb & ob & sub & Efs & S & D & L & Hsub & Hfo & Hso).
   { destruct (c02_pending f) eqn:Ep.
     - pose proof (c02_fire_state_facts c now f Ep) as H. destruct (c02_fire_state c now f) as [[fb ob] sub].
